@@ -182,7 +182,7 @@ def chord_check(ctx, model, names, label_path, ys_by_d, data):
 
 def run(ctx):
     exe = build.harness(*HARNESSES[0][0], **HARNESSES[0][1])
-    rich = not ctx.quick
+    rich = True     # sums and differences of the other masses are coincidence targets in both tiers
     W = 4 if ctx.quick else 16
     ncases = 0
     sigs = set()
